@@ -145,7 +145,9 @@ def run(rep, tier, seed):
                        "all ordered pairs for && and || with a probe on the right operand, plus each value as a "
                        "filter pattern (end to end); values of kinds outside the table (error object, builtin, closure, function, "
                        "file handle) in every position; every && / || expression over 17 atoms printed at top level and "
-                       "inside a filter action of the same run; distinct = distinct (position, value tags)")
+                       "inside a filter action of the same run; the values in their other written forms (raw NUL literals, comparisons "
+                       "and negated comparisons incl. NaN, double negation) in 7 positions; each value as a filter pattern with the "
+                       "output not suppressed (with and without an action); distinct = distinct (position, value tags)")
     rep.cov["exhaustive"] = True
     for it in items[:1] + items[-1:]:
         rep.sample({"src": it["src"], "out": it["out"]})
